@@ -99,7 +99,7 @@ EXPECTED_ERRORS = (TypeError, ValueError, KeyError, ZeroDivisionError, Attribute
 # ``unsupported operand type(s) for +: 'SymNum' and 'str'``) names the proxy class in quotes.  That is a limit of the
 # verifier, not behaviour of the code: it must end as an engine problem (exit 3), never as a refuted obligation.
 _PROXY_NAMES = ("AbsMotorControl", "AbsPowertrain", "AbsRule", "AbsStop", "ElemRef", "ExternalTorque", "Interp", "RecFrame",
-                "RecordedSeries", "ShadowFloat", "SymArange", "SymBool", "SymNum", "SymQ", "SymRange", "SymTimeList", "SymTuple",
+                "RecordedSeries", "ShadowFloat", "ShadowInt", "_ShadowIntMeta", "SymSeqView", "SymSet", "CompResult", "SymArange", "SymBool", "SymNum", "SymQ", "SymRange", "SymTimeList", "SymTuple",
                 "SymUnit", "TimeVariables", "_Callable", "_Iter", "_KindClass", "_Loc", "_OS", "_PD", "_Take", "_Union",
                 "_ShadowFloatMeta", "PTStandIn", "Mate", "BoolRef", "ArithRef", "ExprRef")
 
